@@ -75,6 +75,11 @@ impl<R: Read + Seek> ReadBox<&mut R> for MinfBox {
                 ));
             }
 
+            // Break if size zero BoxHeader, which can result in dead-loop.
+            if s == 0 {
+                break;
+            }
+
             match name {
                 BoxType::VmhdBox => {
                     vmhd = Some(VmhdBox::read_box(reader, s)?);
